@@ -1017,14 +1017,16 @@ SVectorBase<R>& SVectorBase<R>::operator=(const SSVectorBase<S>& sv)
 
    int nnz = 0;
    int idx;
+   const int size = sv.size();
 
    Nonzero<R>* e = m_elem;
 
-   for(int i = 0; i < nnz; ++i)
+   // loop over the nonzero positions of sv (not up to the counter of nonzeros copied so far, which starts at 0)
+   for(int i = 0; i < size; ++i)
    {
       idx = sv.index(i);
 
-      if(sv.value(idx) != 0.0)
+      if(sv[idx] != 0.0)
       {
          e->idx = idx;
          e->val = sv[idx];
